@@ -151,6 +151,25 @@ def main():
                  'opts': {'id_col': 1}, 'delimiter': None,
                  'args': {'minibatch_size': MBv, 'subsampling': SSv, 'heuristic': 'Constant', 'target_ranking_only': 'True', 'data_source': 'ob-vw'}})
     meta.append((MBv, SSv, 2, 1030, 'Constant', nv, ['good'] * nv, nv // SSv))
+    # repeated data blocks [A, A, B, A, B]: a pair's score is bit-identical in several batches and different in others
+    MBr = 1100
+    colsr = ['id', 'f0', 'f1', 'f2', 'label']
+    blocks = {}
+    for name in 'AB':
+        rows_ = []
+        for _ in range(MBr):
+            lab = rng.randrange(2)
+            rows_.append([str((lab + (rng.random() < (0.1 if name == 'A' else 0.4))) % 2), str(rng.randrange(5)), str((lab * 2 + rng.randrange(3)) % 4), str(lab)])
+        blocks[name] = rows_
+    rep_lines = [','.join(colsr) + '\n']
+    pos_ = 0
+    for name in 'AABAB':
+        for r_ in blocks[name]:
+            pos_ += 1
+            rep_lines.append(','.join([str(pos_)] + r_) + '\n')
+    jobs.append({'op': 'run_stream', 'columns': colsr, 'lines': rep_lines, 'opts': {},
+                 'args': {'minibatch_size': MBr, 'subsampling': 1, 'heuristic': 'MI-numba-randomized', 'target_ranking_only': 'False'}})
+    meta.append((MBr, 1, 5, 0, 'MI-numba-randomized', pos_, ['good'] * pos_, pos_))
     got = PC.pipe_eval(jobs, modules=['pipe_ops'], procs=8)
     wd = E.workdir('c08t')
     try:
